@@ -152,9 +152,10 @@ pub struct PanicInfo {
 }
 
 impl PanicInfo {
-    /// line-free signature: file + enclosing function + masked message
+    /// line-free signature: file + masked head of the message. The enclosing function (taken from the
+    /// backtrace, which is not always symbolised) is reported in the text but is not part of the key.
     pub fn signature(&self) -> String {
-        format!("panic@{}:{}:{}", self.file, self.func, mask_msg(&self.msg))
+        format!("panic@{}:{}", self.file, mask_msg(&self.msg))
     }
 }
 
